@@ -32,6 +32,7 @@ type c11Step struct {
 	Framed  bool   `json:"framed,omitempty"`
 	DelayUs int    `json:"delay_us,omitempty"`
 	Blocked bool   `json:"blocked,omitempty"` // pair: the first peer does not read, so the victim's writes to it block
+	Bye     bool   `json:"bye,omitempty"`     // hello: the peer's transport ends right behind its handshake message
 }
 
 type C11Plan struct {
@@ -95,6 +96,7 @@ func genC11(seed uint64, tier string) any {
 			if r.Bool(0.3) {
 				st.Origin = simnet.Pick(r, c11IDs)
 			}
+			st.Bye = r.Bool(0.25)
 		case x < 75:
 			st.Kind = "update"
 			st.ListV = r.Bool(0.7)
@@ -141,6 +143,8 @@ func runC11(t *testing.T, planAny any, res *simnet.Result) {
 	}
 	simnet.Bubble(t, func() {
 		w := simnet.NewWorld(res.Seed)
+		// the handshake is spread over simulated time at its yield points (before the already-connected check, after admission)
+		defer installYields(res.Seed, 0.4, "handshake.check", "handshake.admitted")()
 		m := simnet.NewMesh(w)
 		k := simnet.DefaultKnobs()
 		k.ServiceAd = 0
@@ -325,6 +329,12 @@ func runC11(t *testing.T, planAny any, res *simnet.Result) {
 			switch st.Kind {
 			case "hello":
 				hello(st.Slot, st)
+				if s := slots[st.Slot]; st.Bye && s != nil {
+					// connect, announce, disconnect: whatever the victim had got to, nothing of the session may stay behind
+					_ = s.sess.Close()
+					s.open, s.est = false, false
+					res.Add("probe_hello_then_gone", 1)
+				}
 				// a rejected session must have been told so and closed
 				time.Sleep(500 * time.Millisecond)
 				s := slots[st.Slot]
